@@ -113,7 +113,7 @@ class Peer:
         self.writes = []          # (dtid, k, pid, text, complete) ground truth of peer writes
         self.names_seen = []      # (dtid, k, pid, sorted sim_* names)
         self.modglobals = []
-        self.capture_cls = None   # set by harness: xdoctest TeeStringIO
+        self.run_stdout = []      # stack: what sys.stdout was when the running DocTest.run was entered
         self.violations = []      # invariant violations found at hit time (rule, detail)
         self.doc_owner = lambda pid: None   # pid -> dtid owning that point (set by harness)
         self.import_log = []      # (modname, action, value)
@@ -131,7 +131,9 @@ class Peer:
             self.ref_hits.append((pid, n))
             return dtid, k, n
         out = sys.stdout
-        cap_active = self.capture_cls is not None and isinstance(out, self.capture_cls)
+        # 'capture active' without naming an implementation: some stream other than the
+        # one that was installed when run() was entered is receiving the doctest's output
+        cap_active = bool(self.run_stdout) and out is not self.run_stdout[-1]
         try:
             running = asyncio._get_running_loop() is not None
         except Exception:
